@@ -129,6 +129,14 @@ func vC20xToSignature(s *lnwire.Sig) (input.Signature, error) {
 	return x, nil
 }
 
+// vC20xToSignatureBytes replaces (*lnwire.Sig).ToSignatureBytes (the 64-byte ->
+// DER re-encoding whose result ChanEdgePolicyFromWire stores as SigBytes): it
+// scans the signature for its first non-zero byte, one path per position. The
+// stored SigBytes are not part of any obligation here.
+func vC20xToSignatureBytes(s *lnwire.Sig) []byte {
+	return append([]byte{}, s.RawBytes()...)
+}
+
 type c20xKeyEntry struct {
 	p *btcec.PublicKey
 	b []byte
@@ -143,7 +151,7 @@ var c20xErrBadKey = errors.New("c20x: malformed public key")
 // 02/03 (in particular for the blank key of the zombie index). All other keys
 // this harness ever parses are the four genuine test keys.
 func vC20xParsePubKey(b []byte) (*btcec.PublicKey, error) {
-	if b[0] != 2 && b[0] != 3 {
+	if c20xB(b[0] != 2)&c20xB(b[0] != 3) == 1 {
 		return nil, c20xErrBadKey
 	}
 	p := new(btcec.PublicKey)
@@ -218,6 +226,7 @@ func c20xIdeal() {
 	vReplace("(*github.com/lightningnetwork/lnd/lnwire.Sig).ToSignature", "github.com/lightningnetwork/lnd/discovery.vC20xToSignature")
 	vReplace("github.com/btcsuite/btcd/btcec/v2.ParsePubKey", "github.com/lightningnetwork/lnd/discovery.vC20xParsePubKey")
 	vReplace("github.com/btcsuite/btcd/chainhash/v2.DoubleHashB", "github.com/lightningnetwork/lnd/discovery.vC20xDoubleHashB")
+	vReplace("(*github.com/lightningnetwork/lnd/lnwire.Sig).ToSignatureBytes", "github.com/lightningnetwork/lnd/discovery.vC20xToSignatureBytes")
 	vReplace("(time.Time).Sub", "github.com/lightningnetwork/lnd/discovery.vC20xSub")
 	vInjective("sig")
 	vInjective("dsha")
@@ -448,7 +457,7 @@ func (g *c20xGraph) GetChannelByID(chanID lnwire.ShortChannelID) (*models.Channe
 
 func (g *c20xGraph) MarkEdgeLive(v lnwire.GossipVersion, chanID lnwire.ShortChannelID) error {
 	g.live = append(g.live, c20xLive{v, chanID})
-	switch vU8("liveErr") % 3 {
+	switch c20xLt3("liveErr") {
 	case 1:
 		g.liveErr = graphdb.ErrZombieEdgeNotFound
 	case 2:
@@ -461,13 +470,19 @@ func (g *c20xGraph) UpdateEdge(_ context.Context, p *models.ChannelEdgePolicy,
 	_ ...batch.SchedulerOption) error {
 
 	g.applied = append(g.applied, p)
-	switch vU8("applyErr") % 3 {
+	switch c20xLt3("applyErr") {
 	case 1:
 		g.applyErr = graph.NewErrf(graph.ErrOutdated, "c20x: outdated")
 	case 2:
 		g.applyErr = c20xErrStore
 	}
 	return g.applyErr
+}
+
+func c20xLt3(name string) uint8 {
+	v := vU8(name)
+	vAssume(v < 3)
+	return v
 }
 
 type c20xCloser struct {
@@ -592,11 +607,11 @@ func VerifC20xChanUpdate() {
 	}
 
 	// the OTHER update a signer may have signed instead: differs from u in
-	// at least one of timestamp, flags, scid (an older update, the update
+	// at least one of timestamp, channel flags, scid (an older update, the update
 	// of the other direction, of another channel)
 	o := *u
-	o.ts, o.cflags, o.mflags, o.scid = vU32("o.ts"), vU8("o.cflags"), vU8("o.mflags"), c20xSymScid("o.scid")
-	vAssume(o.ts != u.ts || o.cflags != u.cflags || o.mflags != u.mflags || o.scid != u.scid)
+	o.ts, o.cflags, o.scid = vU32("o.ts"), vU8("o.cflags"), c20xSymScid("o.scid")
+	vAssume(o.ts != u.ts || o.cflags != u.cflags || o.scid != u.scid)
 
 	slot := c20xSlot("sig")
 	w := c20xUpdWire(u)
@@ -611,18 +626,24 @@ func VerifC20xChanUpdate() {
 	vAssume(capSat >= 0 && capSat <= c20xMaxSat)
 	chanID := vU64("stored.chanid")
 	blank1, blank2 := vBool("zombie.blank1"), vBool("zombie.blank2")
-	isRemote := vBool("isRemote")
-	hasProof := false
+	// The "plumbing" of the pre-state is a concrete profile (vChoice: pinned
+	// per shard, see spec.json): origin of the message, alias handling,
+	// whether the channel is announced, whether policies are stored.
+	isRemote := vChoice("remote", 2) == 1
+	isAlias := vChoice("alias", 2) == 1
+	hasBase := vChoice("hasBase", 2) == 1
+	hasProof := vChoice("proof", 2) == 1
+	present := vChoice("stored", 2) == 1
+	seeded := vChoice("limiter", 2) == 1
+	// A LOCAL update of an unannounced channel is additionally handed to the
+	// reliable sender (goroutines, message store): outside.
+	vAssume(isRemote || hasProof || g.state != c20xKnown)
 	var d *AuthenticatedGossiper
 	g.known = func() {
 		g.info = &models.ChannelEdgeInfo{
 			Version: lnwire.GossipVersion1, ChannelID: chanID,
 			NodeKey1Bytes: n1, NodeKey2Bytes: n2, Capacity: btcutil.Amount(capSat),
 		}
-		hasProof = vBool("hasProof")
-		// A LOCAL update of an unannounced channel is additionally handed
-		// to the reliable sender (goroutines, message store): outside.
-		vAssume(isRemote || hasProof)
 		if hasProof {
 			g.info.AuthProof = &models.ChannelAuthProof{}
 		}
@@ -630,7 +651,7 @@ func VerifC20xChanUpdate() {
 		// the other fields are the update's, except the base fee (xor any
 		// value) and the disabled bit (any), so that the update is or is
 		// not a keep-alive of the stored policy.
-		if vBool("stored.present") {
+		if present {
 			var st [2]*models.ChannelEdgePolicy
 			for k := 0; k < 2; k++ {
 				name := [2]string{"e1", "e2"}[k]
@@ -648,10 +669,12 @@ func VerifC20xChanUpdate() {
 				}
 			}
 			g.e1, g.e2 = st[0], st[1]
-			// gossiper state: the rate limiters of this channel are
-			// exhausted (limit 0, burst 0), or do not exist yet
-			if vBool("ratelimit.exhausted") {
-				d.chanUpdateRateLimiter[chanID] = [2]*rate.Limiter{rate.NewLimiter(0, 0), rate.NewLimiter(0, 0)}
+			// gossiper state: the rate limiters of this channel do not
+			// exist yet, or exist with limit 0 and 0 or 1 tokens left in
+			// each direction
+			if seeded {
+				b0, b1 := int(vU8("ratelimit.burst0")&1), int(vU8("ratelimit.burst1")&1)
+				d.chanUpdateRateLimiter[chanID] = [2]*rate.Limiter{rate.NewLimiter(0, b0), rate.NewLimiter(0, b1)}
 			}
 		}
 	}
@@ -666,7 +689,6 @@ func VerifC20xChanUpdate() {
 	}
 
 	// --- the gossiper -----------------------------------------------
-	isAlias, hasBase := vBool("isAlias"), vBool("hasBase")
 	base := c20xSymScid("base")
 	genesis := c20xGenesisVal
 	closer := &c20xCloser{chanPeer: vBool("chanPeer")}
@@ -717,19 +739,34 @@ func VerifC20xChanUpdate() {
 	}
 
 	// --- what the property says ---------------------------------------
-	// (written without branches on symbolic values: !a || b for a => b)
+	// Facts are 0/1 bytes combined with & | ^ (c20xB turns one comparison
+	// into a byte): Go's && / || chains compile to multi-way control flow on
+	// which the symbolic run would split once per operand.
+	const T, F = uint8(1), uint8(0)
 	dir := u.cflags & 1
 	owner := c20xSel(n1, n2, dir)
-	ownerBlank := (dir == 0 && blank1) || (dir == 1 && blank2)
-	auth := slot.authentic(owner)
-	fieldsOK := u.mflags&1 != 0 && u.max != 0 && u.min <= u.max &&
-		(capSat == 0 || u.max <= uint64(capSat)*1000)
+	ownerBlank := (dir^1)&c20xB(blank1) | dir&c20xB(blank2)
+	auth := c20xB(slot.authentic(owner))
+	capKnown := c20xB(capSat != 0)
+	fieldsOK := u.mflags & 1 & c20xB(u.max != 0) & c20xB(u.min <= u.max) &
+		(capKnown ^ 1 | c20xB(u.max <= uint64(capSat)*1000))
 	graphScid := c20xSelScid(u.scid, base, hasBase)
-	premature := isRemote && !isAlias && u.scid.BlockHeight > d.bestHeight
+	premature := F
+	if isRemote && !isAlias { // concrete profile
+		premature = c20xB(u.scid.BlockHeight > d.bestHeight)
+	}
+	farB := F
+	if far {
+		farB = T
+	}
+	okChain, stale := c20xB(chainOK), c20xB(g.stale)
 	// the gossiper gets as far as looking at the channel:
-	looked := chainOK && !premature && u.ts != 0 && !g.stale && !far
-	askedRight := g.staleAsked == 1 && g.staleScid == graphScid && g.staleFlags == lnwire.ChanUpdateChanFlags(u.cflags) &&
-		g.staleTs.Unix() == int64(u.ts)
+	looked := okChain & (premature ^ 1) & c20xB(u.ts != 0) & (stale ^ 1) & (farB ^ 1)
+	askedRight := c20xB(g.staleScid == graphScid) & c20xB(g.staleFlags == lnwire.ChanUpdateChanFlags(u.cflags)) &
+		c20xB(g.staleTs.Unix() == int64(u.ts))
+	if g.staleAsked != 1 {
+		askedRight = F
+	}
 
 	nApplied, nLive := len(g.applied), len(g.live)
 	_, stashErr := d.prematureChannelUpdates.Get(u.scid.ToUint64())
@@ -737,7 +774,10 @@ func VerifC20xChanUpdate() {
 	relayed := len(anns) > 0
 	parked := d.futureMsgs.Len() > 0
 	answered := prom.calls == 1
-	refused := prom.calls == 1 && prom.err != nil
+	refused := F // answered with an error
+	if prom.calls == 1 && prom.err != nil {
+		refused = T
+	}
 
 	vAssert(nApplied <= 1 && nLive <= 1 && len(anns) <= 1 && prom.calls <= 1 && d.prematureChannelUpdates.Len() <= 1,
 		"one update causes at most one graph operation, one stash, one relay and one answer")
@@ -746,20 +786,21 @@ func VerifC20xChanUpdate() {
 	if nApplied == 1 {
 		p := g.applied[0]
 		vAssert(g.state == c20xKnown, "UpdateEdge for a channel that is not a known live edge")
-		vAssert(auth, "channel_update applied although its signature is not authentic for the node that owns the claimed direction")
-		vAssert(fieldsOK && looked, "channel_update applied although its fields are inconsistent or it is for another chain / premature / has timestamp 0 / is stale / is too far in the future")
-		vAssert(askedRight && g.getAsked == 1 && g.getScid == graphScid, "freshness / the channel was looked up for another channel, direction or timestamp than the update's")
-		vAssert(p.ChannelID == chanID && p.Version == lnwire.GossipVersion1 &&
-			p.LastUpdate.Unix() == int64(u.ts) && uint8(p.ChannelFlags) == u.cflags && uint8(p.MessageFlags) == u.mflags &&
-			p.TimeLockDelta == u.tld && uint64(p.MinHTLC) == u.min && uint64(p.MaxHTLC) == u.max &&
-			uint64(p.FeeBaseMSat) == uint64(u.base) && uint64(p.FeeProportionalMillionths) == uint64(u.rate) &&
-			bytes.Equal(p.ExtraOpaqueData, u.extra), "the policy handed to the graph differs from the signed update or names another channel id than the stored one")
+		vAssert(auth == T, "channel_update applied although its signature is not authentic for the node that owns the claimed direction")
+		vAssert(fieldsOK&looked == T, "channel_update applied although its fields are inconsistent or it is for another chain / premature / has timestamp 0 / is stale / is too far in the future")
+		vAssert(askedRight&c20xB(g.getScid == graphScid)&c20xB(g.getAsked == 1) == T, "freshness / the channel was looked up for another channel, direction or timestamp than the update's")
+		same := c20xB(p.ChannelID == chanID) & c20xB(p.LastUpdate.Unix() == int64(u.ts)) &
+			c20xB(uint8(p.ChannelFlags) == u.cflags) & c20xB(uint8(p.MessageFlags) == u.mflags) &
+			c20xB(p.TimeLockDelta == u.tld) & c20xB(uint64(p.MinHTLC) == u.min) & c20xB(uint64(p.MaxHTLC) == u.max) &
+			c20xB(uint64(p.FeeBaseMSat) == uint64(u.base)) & c20xB(uint64(p.FeeProportionalMillionths) == uint64(u.rate)) &
+			c20xB(bytes.Equal(p.ExtraOpaqueData, u.extra))
+		vAssert(same&c20xB(p.Version == lnwire.GossipVersion1) == T, "the policy handed to the graph differs from the signed update or names another channel id than the stored one")
 	}
 	if nLive == 1 {
 		vAssert(g.state == c20xZombie, "MarkEdgeLive for a channel that is not a zombie")
-		vAssert(auth, "zombie resurrected by an update whose signature is not authentic for the node that owns the claimed direction")
-		vAssert(!ownerBlank, "zombie resurrected by the side whose key is not in the zombie index")
-		vAssert(looked && askedRight && g.live[0].v == lnwire.GossipVersion1 && g.live[0].scid == graphScid,
+		vAssert(auth == T, "zombie resurrected by an update whose signature is not authentic for the node that owns the claimed direction")
+		vAssert(ownerBlank == F, "zombie resurrected by the side whose key is not in the zombie index")
+		vAssert(looked&askedRight&c20xB(g.live[0].scid == graphScid)&c20xB(g.live[0].v == lnwire.GossipVersion1) == T,
 			"zombie resurrected by an update for another chain / premature / timestamp 0 / stale / too far in the future, or another channel was marked live")
 	}
 	if relayed {
@@ -768,33 +809,47 @@ func VerifC20xChanUpdate() {
 			"channel_update relayed although it was not applied to the graph / the channel is unannounced / the scid is an alias, or something else was relayed")
 	}
 	if stashed {
-		vAssert(looked && (g.state == c20xUnknown || (g.state == c20xZombie && nLive == 1 && g.liveErr != c20xErrStore)),
+		legit := g.state == c20xUnknown || (g.state == c20xZombie && nLive == 1 && g.liveErr != c20xErrStore) // concrete
+		vAssert(looked&c20xB(legit) == T,
 			"update stashed for later although it was rejected, the channel is known, the store failed or the zombie was not resurrected")
 	}
 	if parked {
-		vAssert(premature && chainOK && nApplied == 0 && nLive == 0 && !relayed && !stashed,
+		vAssert(premature&okChain&c20xB(nApplied == 0 && nLive == 0 && !relayed && !stashed) == T,
 			"update parked for a future height although it is not premature, or a premature update changed the graph")
 	}
 
 	// -- rejected => answered with an error ------------------------------
-	touched := g.state == c20xKnown || g.state == c20xZombie
-	vAssert(!(looked && touched && !auth) || refused, "inauthentic update was not answered with an error")
-	vAssert(!(looked && g.state == c20xKnown && !fieldsOK) || refused, "inconsistent update was not answered with an error")
-	vAssert(!(looked && g.state == c20xZombie && ownerBlank) || refused, "update from the side that may not resurrect was not answered with an error")
-	vAssert(!(!chainOK || (far && !premature && u.ts != 0 && !g.stale)) || refused, "update for another chain / too far in the future was not answered with an error")
+	// (a => b written as a^1 | b)
+	if g.state == c20xKnown || g.state == c20xZombie {
+		vAssert((looked&(auth^1))^1|refused == T, "inauthentic update was not answered with an error")
+	}
+	if g.state == c20xKnown {
+		vAssert((looked&(fieldsOK^1))^1|refused == T, "inconsistent update was not answered with an error")
+	}
+	if g.state == c20xZombie {
+		vAssert((looked&ownerBlank)^1|refused == T, "update from the side that may not resurrect was not answered with an error")
+	}
+	skewed := okChain & farB & (premature ^ 1) & c20xB(u.ts != 0) & (stale ^ 1)
+	vAssert(((okChain^1)|skewed)^1|refused == T, "update for another chain / too far in the future was not answered with an error")
 
 	// -- completeness ---------------------------------------------------
-	good := looked && auth
+	good := looked & auth
 	if g.state == c20xKnown {
 		// a remote update of a direction that has a stored policy may be
 		// dropped by the keep-alive / rate limit
-		throttleable := isRemote && g.e1 != nil
-		vAssert(!(good && fieldsOK && !throttleable) || nApplied == 1, "authentic, consistent, fresh update of a known channel was not applied")
-		vAssert(!(good && fieldsOK && nApplied == 0) || (answered && !refused), "throttled update must be answered without error")
-		vAssert(!(nApplied == 1 && g.applyErr == nil && hasProof && !isAlias) || relayed, "applied update of an announced channel was not relayed")
+		throttleable := isRemote && g.e1 != nil // concrete
+		if !throttleable {
+			vAssert((good&fieldsOK)^1|c20xB(nApplied == 1) == T, "authentic, consistent, fresh update of a known channel was not applied")
+		}
+		if nApplied == 0 {
+			vAssert((good&fieldsOK)^1|(c20xB(answered)&(refused^1)) == T, "throttled update must be answered without error")
+		}
+		if nApplied == 1 && g.applyErr == nil && hasProof && !isAlias {
+			vAssert(relayed, "applied update of an announced channel was not relayed")
+		}
 	}
 	if g.state == c20xZombie {
-		vAssert(!(good && !ownerBlank) || nLive == 1, "authentic update from the side allowed to resurrect did not resurrect the zombie")
+		vAssert((good&(ownerBlank^1))^1|c20xB(nLive == 1) == T, "authentic update from the side allowed to resurrect did not resurrect the zombie")
 	}
 
 	// -- witnesses (branches on symbolic values only from here on) ---------
@@ -826,17 +881,27 @@ func VerifC20xChanUpdate() {
 		vReach("reject-skew")
 	case g.state == c20xDBErr:
 		vReach("reject-store-error")
-	case g.state == c20xZombie && ownerBlank:
+	case g.state == c20xZombie && ownerBlank == T:
 		vReach("zombie-reject-blank-key")
 	case g.state == c20xZombie:
 		vReach("zombie-reject-signature")
-	case g.state == c20xKnown && !fieldsOK:
+	case g.state == c20xKnown && fieldsOK == F:
 		vReach("reject-fields")
-	case g.state == c20xKnown && !auth:
+	case g.state == c20xKnown && auth == F:
 		vReach("reject-signature")
 	case g.state == c20xKnown:
 		vReach("throttled")
 	}
+}
+
+// c20xB turns a condition into a 0/1 byte (one pure diamond, which the
+// symbolic run evaluates without splitting).
+func c20xB(b bool) uint8 {
+	r := uint8(0)
+	if b {
+		r = 1
+	}
+	return r
 }
 
 // c20xSel returns a for sel == 0 and b for sel == 1, without branching.
